@@ -30,6 +30,15 @@ def sym_shape(shape):
 
 
 # ---- creation ---------------------------------------------------------------
+def _guard_kw(name, kw, ignorable=("dtype", "order", "subok", "like", "casting", "copy")):
+    """options a contract does not model must not be silently ignored: anything outside `ignorable` that is set to a non-default value
+    (not None / False) takes the call out of the verified subset"""
+    for k, v in kw.items():
+        if k in ignorable or v is None or v is False:
+            continue
+        raise Unsupported("numpy.%s(%s=%r) is not modelled" % (name, k, v))
+
+
 def el_empty(shape, dtype=float, **kw):
     used("numpy.empty: array of the given shape with arbitrary content")
     return EArr.fresh("empty", _shape_tuple(shape), dtype)
@@ -155,6 +164,7 @@ def count_before(mask, p):
 
 
 def el_unique(a, return_index=False, return_inverse=False, return_counts=False, axis=None, **kw):
+    _guard_kw("unique", kw)
     """numpy.unique on a 1-d integer array that is NON-DECREASING (call-site obligation): the distinct values in
     increasing order, the first index of each and the run lengths.  Assumed contract:
       G >= 0, G == 0 iff n == 0; start[0] == 0; counts >= 1; start[g+1] == start[g] + counts[g];
@@ -195,6 +205,7 @@ def el_unique(a, return_index=False, return_inverse=False, return_counts=False, 
 
 # ---- structural ------------------------------------------------------------------
 def el_stack(arrays, axis=0, **kw):
+    _guard_kw("stack", kw)
     used("numpy.stack: result[k, ...] = arrays[k][...]")
     arrs = [as_earr(a) for a in arrays]
     if not arrs:
@@ -324,6 +335,7 @@ def el_repeat(a, repeats, axis=None):
 
 
 def el_array(obj, dtype=None, **kw):
+    _guard_kw("array", kw)
     """numpy.array(<symbolic list>) -> array with the list's items"""
     if hasattr(obj, "vlen") and not isinstance(obj, EArr):
         at = obj._at
@@ -334,6 +346,7 @@ def el_array(obj, dtype=None, **kw):
 
 
 def el_copy(a, **kw):
+    _guard_kw("copy", kw)
     return as_earr(a).copy()
 
 
@@ -368,6 +381,7 @@ def _num(a, t):
 
 
 def el_sum(a, axis=None, dtype=None, **kw):
+    _guard_kw("sum", kw)
     """sum of a 1-d array: ghost prefix sums PS(0) = 0, PS(i+1) = PS(i) + a[i]; the result is PS(n)"""
     a = as_earr(a)
     if a.ndim != 1 or axis not in (None, 0, -1):
@@ -477,6 +491,7 @@ def el_reshape(a, shape):
 
 
 def el_count_nonzero(mask, axis=None, **kw):
+    _guard_kw("count_nonzero", kw)
     """count of true entries of a 1-d boolean array: ghost counting function; when the mask is `x > 0` for an array x that
     was argsorted on this path, the sorted-order law is added: x[asc[m]] > 0  <=>  m >= n - count"""
     mask = as_earr(mask)
@@ -502,6 +517,7 @@ def el_count_nonzero(mask, axis=None, **kw):
 
 
 def el_clip(a, a_min=None, a_max=None, out=None, **kw):
+    _guard_kw("clip", kw)
     used("numpy.clip: elementwise min(max(x, lo), hi)")
     if out is not None:
         raise Unsupported("clip with out=")
@@ -523,6 +539,7 @@ def _num2(a, b):
 
 
 def el_prod(a, axis=None, **kw):
+    _guard_kw("prod", kw)
     if isinstance(a, (tuple, list)):
         r = 1
         for x in a:
